@@ -70,7 +70,7 @@ class Scenario(object):
 
     @property
     def data_path(self):
-        return os.path.join(self.wd, self.data_file)
+        return os.path.join(self.wd, self.data_file + ('.profiles' if self.profile else ''))
 
     def next_serial(self):
         self.serial += 1
@@ -203,9 +203,11 @@ def parse_file(text):
                 d['exe'] = cols[6]
                 d['run_col'] = int(cols[14])
             elif (len(cols) == 13 and cols[0].isdigit() and cols[1].isdigit() and cols[11].isdigit()
-                  and cols[12].startswith('[')):
+                  and cols[12].startswith('[') and _is_json(cols[12])):
                 # profile data line: invocation, numIterations, run columns, json
                 d['kind'] = 'prof'
+                d['crit'] = 'profile'
+                d['json'] = cols[12]
                 d['inv'] = int(cols[0])
                 d['bench'] = cols[2]
                 d['exe'] = cols[3]
@@ -217,6 +219,14 @@ def parse_file(text):
         out.append(d)
         pos = end
     return out
+
+
+def _is_json(t):
+    try:
+        json.loads(t)
+        return True
+    except ValueError:
+        return False
 
 
 def payload_tables(lines, key_of_bench, key_of_run):
